@@ -22,7 +22,7 @@ MANIFEST = {
             "norms, mutual angles (alpha between b and c, ...), a along x, b in the xy-plane, positive determinant, volume = "
             "triple product, and round trip through a rotated vector description. Histories: 16-op alphabet {set vectors "
             "(cubic / half-turn-rotated orthorhombic / rotated triclinic / per-frame varying), set lengths, set angles, set lengths None, set angles None, "
-            "vectors None, t[::2], t[0], join, stack, atom_slice, h5 save+load, copy} to depth 2 (3) from {no cell, full cell, "
+            "vectors None, frame-0-rectangular-then-sheared vectors, t[::2], t[0], join, stack, atom_slice, h5 save+load, copy} to depth 2 (3) from {no cell, full cell, "
             "1 frame}; after each step lengths/angles equal the model, have n_frames rows, vectors exist iff both do, and "
             "volumes equal the triple product.",
     "note": "Near-degenerate cells (positivity margin 1e-3) are in the thorough grid with a condition-number dependent "
